@@ -95,6 +95,11 @@ def cases():
             out.append(("forward-reference:ill-typed-virtual-field(%s)" % k, "  8 [+fwd]  UInt:8[]  zz\n  let fwd = %s + 1\n" % OPERANDS[k][0], False))
     out.append(("forward-reference:well-typed-virtual-field", "  8 [+fwd]  UInt:8[]  zz\n  let fwd = xi + 1\n", True))
     out.append(("forward-reference:ill-typed-through-a-chain", "  let use = mid + 1\n  let mid = fwd2\n  let fwd2 = xb ? 1 : false\n", False))
+    # the value of an enum name: a number (D22: `AA = true` was accepted and the header did not compile)
+    out.append(("enum-value:bool", "enum Vals:\n  VV = true\n", False))
+    out.append(("enum-value:bool-expression", "enum Vals:\n  VV = 1 == 1\n", False))
+    out.append(("enum-value:int", "enum Vals:\n  VV = 2 + 3\n", True))
+    out.append(("enum-value:other-value-of-the-enum", "enum Vals:\n  VV = WW\n  WW = 7\n", True))
     # same-named enums in two modules are different types
     imp = 'import "other.emb" as oth\n'
     for nm, expr, ok in (("==(Kind,oth.Kind)", "xk == yk", False), ("==(Kind,Kind)", "xk == zk", True), ("==(oth.Kind,oth.Kind)", "yk == oth.Kind.VA", True),
